@@ -383,9 +383,17 @@ def _eval_const(expr: str, env: dict):
 
 
 def _to_c_expr(
-    expr: str, env: dict, ctx: Optional[Dict[str, object]] = None
+    expr: str,
+    env: dict,
+    ctx: Optional[Dict[str, object]] = None,
+    *,
+    truth: bool = False,
 ) -> str:
-    """Emit a C-like expression string from a safe Python expr; substitute known consts."""
+    """Emit a C-like expression string from a safe Python expr; substitute known consts.
+
+    With ``truth`` the expression is a condition: a string or a list counts as true
+    when it is not empty (C++ has no such conversion).
+    """
 
     helper_set: Optional[Set[str]] = None
     vars_env: Dict[str, object] = env if isinstance(env, dict) else {}
@@ -622,6 +630,8 @@ def _to_c_expr(
 
         if isinstance(n, ast.UnaryOp) and type(n.op) in _UN:
             op_token = _UN[type(n.op)]
+            if isinstance(n.op, ast.Not):
+                return f"({op_token}{truth_of(n.operand)})"
             return f"({op_token}{emit(n.operand)})"
 
         if isinstance(n, ast.BoolOp):
@@ -680,7 +690,7 @@ def _to_c_expr(
 
         if isinstance(n, ast.IfExp):
             return (
-                f"({emit(n.test)} ? {emit(n.body)} : {emit(n.orelse)})"
+                f"({truth_of(n.test)} ? {emit(n.body)} : {emit(n.orelse)})"
             )
 
         if isinstance(n, ast.JoinedStr):
@@ -942,6 +952,8 @@ def _to_c_expr(
                 return f"analogRead({pin_expr})"
             if fname == "str" and len(n.args) == 1 and not n.keywords:
                 return f"String({emit(n.args[0])})"
+            if fname == "str" and not n.args and not n.keywords:
+                return 'String("")'
             if fname in {"int", "float"} and len(n.args) == 1 and not n.keywords:
                 arg = n.args[0]
                 arg_expr = emit(arg)
@@ -953,7 +965,7 @@ def _to_c_expr(
                     return f"({arg_expr}).to{fname.capitalize()}()"
                 return f"static_cast<{fname}>({arg_expr})"
             if fname == "bool" and len(n.args) == 1 and not n.keywords:
-                return f"static_cast<bool>({emit(n.args[0])})"
+                return f"static_cast<bool>({truth_of(n.args[0])})"
             if fname == "len" and len(n.args) == 1 and not n.keywords:
                 literal_len = _literal_length(n.args[0])
                 if literal_len is not None:
@@ -1019,11 +1031,24 @@ def _to_c_expr(
 
         raise ValueError("unsupported")
 
+    def truth_of(node: ast.AST) -> str:
+        if isinstance(node, ast.BoolOp):
+            # only the truth of the result matters: the operands need not share a type
+            op_token = " && " if isinstance(node.op, ast.And) else " || "
+            return "(" + op_token.join(truth_of(value) for value in node.values) + ")"
+        label = _infer_arg_type(node) or ""
+        if label == "String":
+            return f"(String({emit(node)}).length() > 0)"
+        if _is_list_type(label):
+            _mark_helper("list")
+            return f"({emit(node)}.size > 0)"
+        return emit(node)
+
     try:
         tree = ast.parse(expr, mode="eval")
     except SyntaxError as exc:
         raise ValueError("unsupported expression") from exc
-    return emit(tree.body)
+    return truth_of(tree.body) if truth else emit(tree.body)
 
 
 def _resolve_signature_alias(
@@ -3160,7 +3185,7 @@ def _parse_simple_lines(
         m = RE_IF.match(line)
         if m:
             base_indent = _indent_of(raw)
-            cond_expr = _to_c_expr(m.group(1), vars, ctx)
+            cond_expr = _to_c_expr(m.group(1), vars, ctx, truth=True)
             block, next_idx = _collect_block(snippet, i)
             base_ctx_vars = dict(vars)
             base_types = dict(ctx.get("var_types", {}))
@@ -3206,7 +3231,7 @@ def _parse_simple_lines(
                     break
                 m_elif = RE_ELIF.match(probe_text)
                 if m_elif:
-                    cond = _to_c_expr(m_elif.group(1), vars, ctx)
+                    cond = _to_c_expr(m_elif.group(1), vars, ctx, truth=True)
                     elif_block, j = _collect_block(snippet, j)
                     elif_ctx = _branch_ctx()
                     elif_body = _parse_simple_lines(
@@ -3367,7 +3392,7 @@ def _parse_simple_lines(
             # Whatever the body assigns is unknown in the condition, in the body
             # (second and later iterations) and after the loop.
             _forget_constants(ctx, _names_bound_in_block(block))
-            cond_expr = _to_c_expr(m.group(1), vars, ctx)
+            cond_expr = _to_c_expr(m.group(1), vars, ctx, truth=True)
             child_ctx: Dict[str, object] = dict(ctx)
             child_ctx["vars"] = _copy_env(vars)
             child_ctx["var_types"] = dict(ctx.get("var_types", {}))
